@@ -34,6 +34,8 @@ enum Role {
     Nest,
 }
 
+const HANDLE_ROLES: &[Role] = &[Role::Vec, Role::Counter, Role::Acc];
+
 struct FormRec {
     text: String,
     kind: String,
@@ -77,6 +79,18 @@ const HELPERS: &[(&str, &str)] = &[
         "(define (collect k) (if (= k 0) '() (cons (make-counter (* k 10)) (collect (- k 1)))))",
     ),
     ("make-nest", "(define (make-nest n) (lambda () (lambda () (set! n (+ n 1)) n)))"),
+    (
+        "loop-collect",
+        "(define (loop-collect k acc) (if (= k 0) acc (loop-collect (- k 1) (cons (lambda () (set! k (+ k 100)) k) acc))))",
+    ),
+    (
+        "loop-collect-a",
+        "(define (loop-collect-a k acc) (if (= k 0) acc (loop-collect-b (- k 1) (cons (lambda () (set! k (+ k 100)) k) acc))))",
+    ),
+    (
+        "loop-collect-b",
+        "(define (loop-collect-b k acc) (if (= k 0) acc (loop-collect-a (- k 1) (cons (lambda () k) acc))))",
+    ),
     (
         "vswap!",
         "(define (vswap! v i j) (define t (vector-ref v i)) (vector-set! v i (vector-ref v j)) (vector-set! v j t) t)",
@@ -127,6 +141,9 @@ impl Gen {
         }
         if helper == "vfill!" {
             self.need("vfill2");
+        }
+        if helper == "loop-collect-a" {
+            self.need("loop-collect-b");
         }
         let text = HELPERS.iter().find(|(n, _)| *n == helper).expect("helper").1;
         self.helpers.insert(helper.to_string());
@@ -549,6 +566,10 @@ impl Gen {
                 let v = self.rng.upto(5);
                 let mut roots = vec![name.clone()];
                 let sx = match v {
+                    0 | 1 if self.rng.chance(1, 3) => {
+                        // deliberately alike: distinct objects with equal contents
+                        call("vector", vec![int(0), int(0)])
+                    }
                     0 | 1 => {
                         let mut items = vec![];
                         for _ in 0..n {
@@ -858,6 +879,46 @@ impl Gen {
                 }
                 true
             }
+            27 => {
+                // closures created in successive iterations of a TAIL-recursive loop capture
+                // the loop's own parameter: every iteration has its own binding
+                if self.names_with(Role::CounterList).len() >= 3 {
+                    return false;
+                }
+                let which = if self.rng.chance(1, 3) { "loop-collect-a" } else { "loop-collect" };
+                self.need(which);
+                let name = self.fresh("cl");
+                let k = self.rng.range(2, 5);
+                self.roles.insert(name.clone(), Role::CounterList);
+                self.emit(
+                    list(vec![sym("define"), sym(&name), call(which, vec![int(k), quote(list(vec![]))])]),
+                    "mk-tail-loop-closures",
+                    vec![name],
+                    true,
+                );
+                true
+            }
+            28 => {
+                // re-point a variable at another object of the same kind; what the two hold
+                // may well look alike at this moment
+                let role = *self.rng.pick(HANDLE_ROLES);
+                let names = self.names_with(role);
+                if names.len() < 2 {
+                    return false;
+                }
+                let a = self.rng.pick(&names).clone();
+                let b = self.rng.pick(&names).clone();
+                if a == b {
+                    return false;
+                }
+                self.emit(
+                    list(vec![sym("set!"), sym(&a), sym(&b)]),
+                    "set-handle",
+                    vec![a, b],
+                    true,
+                );
+                true
+            }
             _ => false,
         }
     }
@@ -999,13 +1060,20 @@ impl Gen {
             }
             _ => {
                 let g = self.ensure_int();
-                let v = self.rng.upto(4);
+                let v = self.rng.upto(10);
                 (
                     match v {
                         0 => call("/", vec![int(5), int(0)]),
                         1 => call("/", vec![sym(&g), int(0)]),
                         2 => call("/", vec![int(0)]),
-                        _ => call("/", vec![int(8), int(2), int(0)]),
+                        3 => call("/", vec![int(8), int(2), int(0)]),
+                        // the running quotient is a ratio when the zero arrives
+                        4 => call("/", vec![int(1), int(2), int(0)]),
+                        5 => call("/", vec![int(6), int(4), int(0)]),
+                        6 => call("/", vec![int(7), int(2), int(3), int(0)]),
+                        7 => call("/", vec![int(3), int(0), int(2)]),
+                        8 => call("floor-quotient", vec![int(7), int(0)]),
+                        _ => call("floor-remainder", vec![sym(&g), int(0)]),
                     },
                     "div-zero",
                 )
@@ -1304,7 +1372,7 @@ pub fn generate_a(seed: u64, quick: bool, faults: bool) -> Value {
     let hash_seed = rng.next_u64() | 1;
     // swarm configuration
     let steps = if quick { rng.range(10, 40) } else { rng.range(10, 60) } as usize;
-    let nops = 27;
+    let nops = 29;
     let mut weights: Vec<u32> = (0..nops).map(|_| if rng.chance(1, 4) { 0 } else { rng.range(1, 6) as u32 }).collect();
     if weights.iter().all(|w| *w == 0) {
         weights[0] = 1;
